@@ -1288,7 +1288,7 @@ def _layout(rng, w, depth=2):
     return ["struct", fields]
 
 
-def gen_design(rng, dollar=False, ws=False, zio=False):
+def gen_design(rng, dollar=False, ws=False, zio=False, clash=False):
     D = {"sigs": [], "ios": [], "mods": [], "ports": [], "src": rng.random() < 0.5}
     odd = (lambda base: base + ODD_NAMES[:6] + (WS_POOL if ws else []))
     # module tree
@@ -1561,6 +1561,24 @@ def gen_design(rng, dollar=False, ws=False, zio=False):
         if rng.random() < 0.5:
             D["ports"].append(["io", p, None if rng.random() < 0.7 else f"pad{p}", None])
     rng.shuffle(D["ports"])
+    if clash:
+        # a signal driven in module p carries the very name that an ANONYMOUS submodule of p derives from its type and
+        # position (`Module$<index>`, named children come first): the derived name must be de-duplicated like any other
+        cands = []
+        for p, mod in enumerate(D["mods"]):
+            named = sum(1 for it in mod["items"] if it[2] is not None)
+            anon = [it for it in mod["items"] if it[2] is None]
+            own = [i for i in range(ns) if owner[i][0] in ("comb", "sync") and owner[i][1] == p and "lay" not in D["sigs"][i]
+                   and D["sigs"][i]["w"] > 0]
+            for r_, it in enumerate(anon):
+                if it[0] == "mod" and own:
+                    cands.append((f"Module${named + r_}", own))
+                elif it[0] == "inst" and own and isinstance(it[1], dict) and isinstance(it[1].get("type"), str):
+                    cands.append((f"{it[1]['type']}${named + r_}", own))
+        if cands:
+            nm2, own = rng.choice(cands)
+            D["sigs"][rng.choice(own)]["n"] = nm2
+            D["clash"] = nm2
     return D
 
 
@@ -1965,7 +1983,8 @@ def gen_cases(tier, seed):
     skipped_by = {}
     mut_pool = []
     while made < n_designs:
-        D = gen_design(rng, dollar=(rng.random() < 0.06), ws=(rng.random() < 0.03), zio=(rng.random() < 0.05))
+        D = gen_design(rng, dollar=(rng.random() < 0.06), ws=(rng.random() < 0.03), zio=(rng.random() < 0.05),
+                       clash=(made % 5 == 4))
         ok, err = legal(D)
         if not ok:
             skipped += 1
